@@ -32,6 +32,94 @@ func (w *failWriter) Write(p []byte) (int, error) {
 
 var _ io.Writer = (*failWriter)(nil)
 
+// sweepWriter fails at write number failAt. mode 0: from then on every write fails, nothing is accepted;
+// mode 1: only that write fails (later writes would be accepted: they are counted in "after");
+// mode 2: that write accepts its bytes AND returns an error (allowed by io.Writer), later writes are counted in "after".
+type sweepWriter struct {
+	failAt, mode int
+	n, after     int
+	failed       bool
+	sb           strings.Builder
+}
+
+func (w *sweepWriter) Write(p []byte) (int, error) {
+	i := w.n
+	w.n++
+	if w.failAt >= 0 && (i == w.failAt || (w.mode == 0 && i > w.failAt)) {
+		w.failed = true
+		if w.mode == 2 && i == w.failAt {
+			w.sb.Write(p)
+			return len(p), errWriter
+		}
+		return 0, errWriter
+	}
+	if w.failed {
+		w.after++
+	}
+	return w.sb.Write(p)
+}
+
+func execSweep(tpl types.Template, data map[string]any, w *sweepWriter) (res runResult) {
+	l := &CallLog{}
+	defer func() {
+		if x := recover(); x != nil {
+			res = runResult{out: w.sb.String(), class: fmt.Sprintf("PANIC %v", x), log: strings.Join(l.entries, ",")}
+		}
+	}()
+	d := map[string]any{}
+	for k, v := range data {
+		d[k] = v
+	}
+	for k, v := range userFuncs(l) {
+		d[k] = v
+	}
+	err := tpl.Execute(w, d)
+	res = runResult{out: w.sb.String(), log: strings.Join(l.entries, ",")}
+	if err != nil {
+		res.class = renderClass(err)
+	}
+	return res
+}
+
+// writerSweep (C12): the writer fails at EVERY write index 0..W-1 of the render, in the three ways above. Each time
+// Execute must return the writer's error, what was written must be a prefix of the unlimited output, nothing may be
+// written after the failure, and the calls made must be a prefix of the calls of the unlimited render.
+func writerSweep(m types.TemplateManager, name string, data map[string]any, stats func(string)) string {
+	tpl, err := m.GetTemplate(name)
+	if err != nil {
+		return ""
+	}
+	fullW := &sweepWriter{failAt: -1}
+	full := execSweep(tpl, data, fullW)
+	if strings.HasPrefix(full.class, "PANIC") || full.class == "toodeep" {
+		return ""
+	}
+	W := fullW.n
+	if W > 40 {
+		W = 40
+	}
+	stats(fmt.Sprintf("sweep-writes-%d", (W/10)*10))
+	for k := 0; k < W; k++ {
+		for mode := 0; mode < 3; mode++ {
+			t2, _ := m.GetTemplate(name)
+			w := &sweepWriter{failAt: k, mode: mode}
+			got := execSweep(t2, data, w)
+			what := fmt.Sprintf("writer failing at write %d of %d (mode %d)", k, fullW.n, mode)
+			switch {
+			case got.class != "writer":
+				return fmt.Sprintf("%s: Execute returned %q, not the writer's error (output %q)", what, got.class, got.out)
+			case w.after > 0:
+				return fmt.Sprintf("%s: %d write(s) were made after the failure", what, w.after)
+			case !strings.HasPrefix(full.out, got.out):
+				return fmt.Sprintf("%s: what was written %q is not a prefix of the full output %q", what, got.out, full.out)
+			case !strings.HasPrefix(full.log, got.log):
+				return fmt.Sprintf("%s: calls made %q are not a prefix of the calls of the full render %q", what, got.log, full.log)
+			}
+		}
+	}
+	return ""
+}
+
 var hostileStrings = []string{"x", "a<b", "<script>alert(1)</script>", "a&b", `"q"`, "it's", `a\b`, "l1\nl2", "\ttab", "${x}", "}", "-->", "</p>", "é中😀", "a=\"b\" c='d'", "&amp;", "\x01", " ", "", "<!--", "]]>", "> <"}
 
 func genData(r *Rng) map[string]any {
@@ -429,6 +517,9 @@ func genTmplCase(r *Rng, out *outFiles) {
 					c12 = "calls were made after the writer failed: " + rs[i].log + " vs " + full.log
 				}
 			}
+		}
+		if c12 == "" {
+			c12 = writerSweep(m, name, runs[0].data, out.count)
 		}
 		// C15: executing templates never writes to the shared parsed trees (incl. the Tag caches)
 		if after := snapshotAll(m); after != snapBefore {
